@@ -387,6 +387,9 @@ func raceClass(property, stderr string) (string, bool) {
 		}
 		sec := rep[s[0]:end]
 		top := "?"
+		if strings.Contains(sec, "/h/") {
+			top = "calling-code" // the access is in the caller's (harness) goroutine, e.g. reading a retained object
+		}
 		for _, m := range raceFrame.FindAllStringSubmatch(sec, -1) {
 			fn, file, line := m[1], m[2], m[3]
 			if strings.Contains(file, "/osm/") && !strings.Contains(file, "/osm/simrt/") {
